@@ -127,6 +127,10 @@ def run_family(rep, name, programs, item_defaults=None, accept_unsupported_is_vi
                 rep.add(key, "inconclusive", v, r.get("detail", ""))
         elif v == "harness-error":
             rep.harness_error(f"{key}: {r.get('detail')} model={r.get('model')}")
+        elif wfp:
+            # the value question is open (model gap / solver), but the emitted text is ill-formed whatever it means
+            for cl in sorted({p[0] for p in wfp}):
+                rep.add(key, "violation", cl, " ; ".join(p[1] for p in wfp if p[0] == cl)[:300], **extra)
         else:
             rep.add(key, "inconclusive", v, r.get("detail", ""))
     return recs
